@@ -146,6 +146,11 @@ def templates():
             T('transitive_equality', exists([var('X'), var('Y')], conj(conj(cmp(t, '=', X), f), cmp(Y, '=', t))))
             T('transitive_equality', exists([var('X', 'i'), var('Y')], conj(conj(cmp(XI, '=', t), cmp(Y, '=', t)), f)))
             T('transitive_equality', exists([var('Y')], conj(conj(cmp(X, '=', t), cmp(Y, '=', t)), f)))
+        # one of the two "equalities" is a chained comparison that only starts (or ends) with an `=` link
+        for rel, u in (('>', num(7)), ('!=', sym('a')), ('<=', gvar('W'))):
+            T('transitive_equality_chain', exists([var('X', 'i'), var('Y', 'i')], conj(conj(cmp(YI, '=', t), cmp(XI, '=', t, rel, u)), atom('r', XI, YI))))
+            T('transitive_equality_chain', exists([var('X'), var('Y')], conj(conj(cmp(X, '=', t, rel, u), cmp(Y, '=', t)), atom('r', X, Y))))
+            T('transitive_equality_chain', exists([var('X'), var('Y')], conj(conj(cmp(X, '=', t), atom('r', X, Y)), cmp(u, rel, Y, '=', t))))
         # duplicated conjuncts at non-adjacent positions
         T('transitive_equality_dup', exists([var('Y', 'i')], conj(conj(cmp(YI, '=', t), atom('q', YI)), cmp(YI, '=', t))))
         T('transitive_equality_dup', exists([var('X'), var('Y')], conj(conj(cmp(X, '=', t), atom('r', X, Y)), cmp(X, '=', t))))
